@@ -1074,6 +1074,37 @@ theorem spelling_witnesses :
     verdict s (.delete "C" "B" "kyc.vf") true { s with recs := [], cnt := [] } = "fail:write_by_non_owner" := by
   decide
 
+/-! ## Values with surrounding white space; attributes left under a deleted name -/
+
+/-- `types.NewAttribute` trims once: building the attribute again changes nothing. -/
+theorem newAttribute_keeps_verbatim_types (a : Attribute) (h : a.ty = .bytes ∨ a.ty = .proto) :
+    newAttribute a = a := by
+  unfold newAttribute
+  rcases h with h | h <;> simp [h]
+
+/-- Values at work: `"1 "` stored as `bytes` (verbatim) and `"1"` stored from a `string` message
+`" 1 "` (trimmed by `NewAttribute`) are two attributes of one (account, name).  Deleting by the value
+`"1 "` removes exactly the first, deleting by `"1"` exactly the second, deleting by `" 1"` finds
+nothing; an update may store a padded `string` value verbatim; an `int` is judged on the trimmed
+value.  On the checker: an implementation that answers the deletion by `"1 "` by removing `"1"`, or
+whose name deletion leaves an attribute under the name, is reported. -/
+theorem value_white_space_witnesses :
+    let s0 : State := { now := 100, accts := ["A", "C"], names := [("kyc.vf", "A")] }
+    let padded : Attribute := ⟨"B", "kyc.vf", "1 ", .bytes, none⟩
+    let plain : Attribute := ⟨"B", "kyc.vf", "1", .string, none⟩
+    let s := run s0 [.add "A" (newAttribute padded), .add "A" (newAttribute ⟨"B", "kyc.vf", " 1 ", .string, none⟩)]
+    s.recs = [plain, padded] ∧
+    (run s [.deleteDistinct "A" "B" "kyc.vf" "1 "]).recs = [plain] ∧
+    (run s [.deleteDistinct "A" "B" "kyc.vf" "1"]).recs = [padded] ∧
+    refusal (step s (.deleteDistinct "A" "B" "kyc.vf" " 1")) = some .notfound ∧
+    (run s [.update "A" "B" "kyc.vf" "1" .string "x " .string]).recs = [⟨"B", "kyc.vf", "x ", .string, none⟩, padded] ∧
+    refusal (step s (.update "A" "B" "kyc.vf" "1" .string " 7 " .int)) = none ∧
+    refusal (step s (.update "A" "B" "kyc.vf" "1" .string " x " .int)) = some .invalid ∧
+    verdict s (.deleteDistinct "A" "B" "kyc.vf" "1 ") true { s with recs := [padded] } =
+      "fail:disappears:not_deleted_by_owner" ∧
+    verdict s (.deleteName "A" "kyc.vf") true { s with names := [] } = "fail:name_deleted_attributes_remain" := by
+  decide
+
 /-! ## Non-vacuity -/
 
 /-- A history with two names, a transfer, a refused foreign write, a re-add of an identical key
